@@ -16,7 +16,6 @@ from __future__ import annotations
 
 import os
 import sys
-import tempfile
 
 import shim  # noqa: F401
 import numpy as np
@@ -97,17 +96,16 @@ def _install():
     wrap("random", lambda a: ["draw"])
 
 
-_cfgdir = [None]
-
-
 def _config(dim):
-    if _cfgdir[0] is None:
-        _cfgdir[0] = tempfile.mkdtemp(prefix="c14cfg_")
-    p = os.path.join(_cfgdir[0], f"{dim}_{os.getpid()}.yaml")
-    if not os.path.exists(p):
-        with open(p, "w") as fh:
-            fh.write(f"snowing_parameters:\n  dimensionality: {dim}\n  configuration: shelf\n")
-    return p
+    """custom YAML selecting the model dimensionality (written once under .cache/, git-ignored)"""
+    d = core.VERIF / ".cache" / "c14"
+    d.mkdir(parents=True, exist_ok=True)
+    p = d / f"{dim}.yaml"
+    if not p.exists():
+        tmp = d / f"{dim}.{os.getpid()}.tmp"
+        tmp.write_text(f"snowing_parameters:\n  dimensionality: {dim}\n  configuration: shelf\n")
+        os.replace(tmp, p)
+    return str(p)
 
 
 def _mk(case, nrep):
@@ -152,7 +150,11 @@ def run_impl(case):
     try:
         nrep = case["nrep"]
         # reference: the single run with seed i on a fresh object each
-        ref = [_single(_mk(case, 1), case, i) for i in range(nrep)]
+        ref, ref_evs = [], []
+        for i in range(nrep):
+            mark = len(EVENTS)
+            ref.append(_single(_mk(case, 1), case, i))
+            ref_evs.append(EVENTS[mark:])
         # arbitrary state of the global generator before the object is used
         np.random.seed(case.get("gstate", 99))
         np.random.random_sample(case.get("gdraws", 3))
@@ -174,7 +176,7 @@ def run_impl(case):
                                 "rows": [[_bits(x) for x in r] for r in df.to_numpy().tolist()]})
                 except Exception as e:
                     out.append({"raise": core.exc_class(e)})
-        obs = {"raise": None, "out": out, "ref": ref, "world": _world(w0, nrep)}
+        obs = {"raise": None, "out": out, "ref": ref, "ref_evs": ref_evs, "world": _world(w0, nrep)}
         # the single run on the USED object, global generator perturbed: must equal the reference
         np.random.seed(4242)
         obs["used"] = [_single(S, case, i) for i in range(min(nrep, 2))]
@@ -287,6 +289,12 @@ def predicates(case, impl):
             clause = "repeat_same" if h1[-1] == h2[-1] else "modes_equal"
             out.append(Failure(clause=clause, key=f"{clause}|Snowing.results|{h1[-1]}-{h2[-1]}",
                                detail=f"tables after {h1} and after {h2} differ"))
+    for i, ev in enumerate(impl["ref_evs"]):
+        if ev != [["seed", 2024], ["draw"], ["seed", i], ["draw"]]:
+            out.append(Failure(clause="rep_is_seeded_run", key="seeding|Snowing._run_xD|",
+                               detail=f"_run_xD(seed={i}) uses the global generator as {ev}; expected kinetic draw from "
+                                      f"seed 2024 and F_rand as the first draw after np.random.seed({i})"))
+            break
     if impl["used"] != ref[:len(impl["used"])]:
         out.append(Failure(clause="rep_is_seeded_run", key="seeded_run_history_dependent|Snowing._run_xD|",
                            detail="_run_xD(seed=i) on the used object / with another global-generator state differs "
